@@ -1,21 +1,29 @@
 #!/bin/sh
-# usage: tools/run_seeds.sh [seed dirs...]   -- applies each seeded change to /repo, runs the listed checks, reverts, records the outcome
-# result lines go to seeded/RESULTS.jsonl (one per seed x check). Never run concurrently with other checks on /repo.
+# usage: tools/run_seeds.sh [seed dirs...]
+# Runs the claimed checks against each seeded change in a scratch worktree of /repo's HEAD (never in /repo itself):
+# apply patch -> gvc check <props> with GVC_REPO=<worktree> -> revert. One JSON line per seed x check goes to
+# seeded/RESULTS.jsonl. The worktree and scratch verif dir live under /var/tmp and are removed at the end.
+export GOFLAGS=-mod=mod GOPROXY=off GOSUMDB=off GOTOOLCHAIN=local
 cd /verif
-[ -z "$(git -C /repo status --porcelain)" ] || { echo "/repo is dirty"; exit 2; }
+(cd engine && go build -o /var/tmp/gvc_sweep .) || exit 2
+wt=/var/tmp/wt-seedsweep; sv=/var/tmp/seedsweep-verif
+git -C /repo worktree remove --force $wt 2>/dev/null
+git -C /repo worktree add -q --detach $wt HEAD || exit 2
+rm -rf $sv; mkdir -p $sv/evidence; cp known_findings.json $sv/
 seeds="$@"; [ -n "$seeds" ] || seeds=$(ls -d seeded/C*_[AB])
+head=$(git -C /repo rev-parse --short HEAD); eng=$(git -C /verif rev-parse --short HEAD)
 for s in $seeds; do
   s=${s%/}; id=$(basename $s); prop=${id%_*}
-  patch=$s/patch.diff; [ -f $s/patch_head.diff ] && patch=$s/patch_head.diff
+  patch=/verif/$s/patch.diff; [ -f /verif/$s/patch_head.diff ] && patch=/verif/$s/patch_head.diff
   checks=$(python3 tools/seed_checks.py $prop)
-  git -C /repo apply $patch || { echo "{\"seed\":\"$id\",\"status\":\"does-not-apply\"}" >> seeded/RESULTS.jsonl; continue; }
+  git -C $wt apply $patch || { echo "{\"seed\":\"$id\",\"status\":\"does-not-apply\"}" >> seeded/RESULTS.jsonl; continue; }
   for c in $checks; do
-    out=$(./check $c 2>&1); rc=$?
+    out=$(cd $wt && GVC_REPO=$wt GVC_VERIF=$sv /var/tmp/gvc_sweep check $c --tier quick 2>&1); rc=$?
     obl=$(echo "$out" | grep -c '^VIOLATION')
-    first=$(echo "$out" | grep '^VIOLATION' | head -3 | sed 's/.*obligation=//' | cut -c1-160 | tr '\n' '|' | sed 's/"/\\"/g')
-    echo "{\"seed\":\"$id\",\"check\":\"$c\",\"exit\":$rc,\"violations\":$obl,\"first\":\"$first\"}" >> seeded/RESULTS.jsonl
+    first=$(echo "$out" | grep '^VIOLATION' | head -3 | sed 's/.*obligation=//' | cut -c1-200 | tr '\n' '|' | sed 's/"/\\"/g')
+    echo "{\"seed\":\"$id\",\"check\":\"$c\",\"exit\":$rc,\"violations\":$obl,\"repo\":\"$head\",\"verif\":\"$eng\",\"first\":\"$first\"}" >> seeded/RESULTS.jsonl
     echo "$id $c exit=$rc violations=$obl"
   done
-  git -C /repo checkout -- . ; git -C /repo clean -fdq x/ 2>/dev/null
+  git -C $wt apply -R $patch
 done
-rm -rf replays
+git -C /repo worktree remove --force $wt; rm -rf $sv /var/tmp/gvc_sweep
